@@ -53,3 +53,15 @@ Example C19_nonvacuous :
   snd (limit_call [(ERR_WRONGMSOPLEN, 1700000000)] 1700000001 ERR_WRONGMSOPLEN) = [] /\
   snd (limit_call [(ERR_WRONGMSOPLEN, 1700000000)] 1700000002 ERR_WRONGMSOPLEN) = [OErr ERR_WRONGMSOPLEN].
 Proof. vm_compute. repeat split; reflexivity. Qed.
+
+(* T3b: the rate-limited report sites of the CURRENT source (extracted by kt.py from processMsopPkt, processDifopPkt, getPointCloud,
+   packetPut) have the shape the throttle model assumes: each site mentions exactly one code and its limited body only reports;
+   no code has two sites (one cell per code: a report of one code never delays another code's first report); every code the model
+   throttles has its site *)
+From RS Require Import Gen.Kernels_gen Proofs.Throttle.
+Theorem C19_T3b_sites :
+  forallb site_ok throttle_sites = true /\ nodupb site_codes = true /\
+  forallb (fun c => existsb (String.eqb c) site_codes) modelled_codes = true.
+Proof. exact throttle_sites_shape. Qed.
+Theorem C19_T3b_one_cell_per_code : NoDup site_codes.
+Proof. exact one_cell_per_code. Qed.
